@@ -13,7 +13,7 @@ PROPERTY_META = {
                        "config.load, FontConfig(...) keywords) coincide and are wired field-for-field; flag defaults are the "
                        "None sentinel; _pop_flag evaluates flag > file > default on all four set/unset combinations; csv "
                        "writer/reader dialect keywords agree; glyphmap column order and radix agree; parts JSON keys written = "
-                       "keys read; config.write drops nothing but None, writes axes/masters in the order load keeps, and targets the file the edges consume on every run; every returned glyph name passes the first-character test. Does NOT decide value-level round trips (float formatting of Affine2D.tostring, shell "
+                       "keys read; config.write drops nothing but None, writes axes/masters in the order load keeps, and targets the file the edges consume on every run; every returned glyph name passes the first-character test. Also: codepoints are read from file names by the one documented pattern; the non-letter prefix is decided after the long-name hash. Does NOT decide value-level round trips (float formatting of Affine2D.tostring, shell "
                        "splitting of response files, the file-name regex).",
         "declined": "float round-trip of transform strings; ninja response-file quoting; from_filename regex on arbitrary names",
         "assumptions": _ASSUME,
@@ -36,7 +36,7 @@ _stub("C11", "Decides structural clauses of C11: the repository's (type, format)
              "rule, every coverage is paired with its own coverage-indexed array, attribute paths resolve in otData, glyph-sorted "
              "inner lists have a ReorderList); the traversal visits all four containers and every subtable after setGlyphOrder; "
              "the font is fully loaded before the order changes in the callee and at both callers; argument validation raises "
-             "before mutation; no loop of the reordering pass can stop early. Does NOT decide the permutation arithmetic of _sort_by_gid or tables outside the four containers.",
+             "before mutation; no loop of the reordering pass can stop early. Also: load_fully re-opens lazily loaded fonts with lazy=False; the parallel array is permuted by the same (not the inverse) permutation in every recognised idiom. Does NOT decide the permutation arithmetic of _sort_by_gid or tables outside the four containers.",
       "_sort_by_gid arithmetic (unit-tested); cmap/hmtx/glyf/COLR which fontTools keys by glyph name")
 
 _stub("C16", "Decides structural clauses of C16: in paint.transformed every specialised paint is dominated by the range predicate of "
@@ -72,7 +72,7 @@ _stub("C12", "Decides structural clauses of C12 on maximum_color's ninja graph a
              "--bitmaps/--colr_version reach their edges); gid-named files agree between the driver's declared outputs, both extractors "
              "and the glyphmap's gid lookup in the source font's order; the mergeable config copies upem/ascender/descender from the "
              "same head/OS/2 fields its siblings read, width 0, names kept; donation copies referenced glyphs, fixes glyph order once, "
-             "reorders before grafting SVG, rejects missing names for CBDT. Does NOT decide table-by-table equality of the output font "
+             "reorders before grafting SVG, rejects missing names for CBDT. Also: grafting SVG keeps every donor gid (filler glyphs gid by gid); CBLC strike templates are deep-copied per run. Does NOT decide table-by-table equality of the output font "
              "or rendering agreement between colour tables.",
       "binary equality of retained tables; rendering agreement between COLR/SVG/CBDT")
 
@@ -109,7 +109,7 @@ _stub("C02", "Decides structural clauses of C02: coordinate-space typing of svg.
              "the donor's frame and to a <path> in the target's; a pre-applied gradient transform is not applied twice); the user "
              "transform is bracketed by the y flip in map_viewbox_to_otsvg_space; <use>/id pairing on every path; attribute migration "
              "only when all uses agree; glyph ids read after the reshuffle come from the renumbered mapping and one group list drives "
-             "numbering and emission over all groups; the untouched path deletes only width/height/viewBox/enable-background; picosvg/compressed wiring. Does NOT decide a renderer's interpretation of <use x y transform>, "
+             "numbering and emission over all groups; the untouched path deletes only width/height/viewBox/enable-background; picosvg/compressed wiring. Also: each radial-gradient attribute is written under the condition of its own field only; a layer is drawn into its nearest enclosing group. Does NOT decide a renderer's interpretation of <use x y transform>, "
              "3-digit rounding or the Safari nudge's visual effect.",
       "renderer semantics of <use>; rounding to 3 digits; involutory-matrix nudge")
 
@@ -123,7 +123,7 @@ _stub("C06", "Decides structural clauses of C06: coordinate-space typing of both
 _stub("C19", "Decides structural clauses of C19: the path looked up for reuse is the path inserted, every new outline is registered, "
              "look-up and insertion normalise with one tolerance derived from the configuration, one font-wide cache; the reuse wrapper "
              "/ <use> is produced whenever a donor exists unless the transform overflows (a found donor is never discarded, a transformed COLRv0 copy is always a component of the shared outline); try_reuse gives up for exactly four reasons "
-             "(disabled, no donor, no affine, overflow); reuse is disabled only by a negative tolerance. Does NOT decide that picosvg's "
+             "(disabled, no donor, no affine, overflow); reuse is disabled only by a negative tolerance. Also: every OT-SVG reuse hit joins the two glyphs' groups at once; per-glyph state is not carried between loops. Does NOT decide that picosvg's "
              "normalisation identifies all isometric copies.",
       "completeness of picosvg's congruence detection")
 
